@@ -226,6 +226,30 @@ func post_Conn_AddLink(c *Conn, alias string, channel *security.Channel) bool {
 		vs.Has(c.links, alias) && c.links[alias] == vs.TraceRet[string](t, 0)
 }
 
+// onConnect (C08: "the last will is published exactly once ... when the connection ends" - what Close hands to
+// OnLastWill is the record made here): the connection record carries the CONNECT packet's will exactly as the client
+// stated it - flag, retain, QoS, topic and message, an EMPTY message included (a zero-length will payload is legal
+// MQTT) - under this connection's own id, and is announced to the cluster once when there is one.
+// @ verify (*Conn).onConnect pre=pre_Conn_onConnect post=post_Conn_onConnect_will,post_Conn_onConnect_notify props=C08
+// @ assume (*Service).ID iface for=onConnect
+func pre_Conn_onConnect(c *Conn, packet *mqtt.Connect) bool {
+	return c != nil && c.service != nil && packet != nil
+}
+func post_Conn_onConnect_will(c *Conn, packet *mqtt.Connect, res0 bool) bool {
+	e := c.connect
+	return res0 && e != nil && e.Conn == c.luid && e.WillFlag == packet.WillFlag && e.WillRetain == packet.WillRetainFlag &&
+		e.WillQoS == packet.WillQOS &&
+		len(e.WillTopic) == len(packet.WillTopic) && (len(e.WillTopic) == 0 || vs.OffsetIn(e.WillTopic, packet.WillTopic) == 0) &&
+		len(e.WillMessage) == len(packet.WillMessage) && (len(e.WillMessage) == 0 || vs.OffsetIn(e.WillMessage, packet.WillMessage) == 0)
+}
+func post_Conn_onConnect_notify(c *Conn, packet *mqtt.Connect) bool {
+	if c.service.cluster == nil {
+		return vs.TraceCount(".Notify") == 0
+	}
+	n := vs.TraceFind(".Notify")
+	return n >= 0 && vs.TraceCount(".Notify") == 1 && vs.TraceArg[bool](n, 2)
+}
+
 // @ verify (*Conn).Send pre=pre_Conn_Send post=post_Conn_Send props=C02
 func pre_Conn_Send(c *Conn, m *message.Message) bool { return c != nil && m != nil && c.socket != nil }
 func post_Conn_Send(c *Conn, m *message.Message, res0 error) bool {
